@@ -171,6 +171,11 @@ type Packet struct {
 	Capture int // index of the capture file holding the packet
 	Index   int // index of the packet inside that capture file
 	ipid    uint16
+
+	// FragCuts: the IPv4 datagram is captured as len(FragCuts)+1 fragments, cut at these offsets (multiples of 8)
+	// of the IP payload; all fragments carry the packet's timestamp and are consecutive records of its capture file
+	FragCuts    []int
+	FragReverse bool // the fragments were captured last first
 }
 
 // Capture is one capture file.
@@ -194,6 +199,7 @@ type Scenario struct {
 	Steered       int        // conversations moved away from a shape excluded by the Config (see Config.Avoid...)
 	SteeredCuts   int        // cut positions moved by Config.AvoidCutAfterSecondFin
 	Unordered     int        // capture files whose first or last two packets are not in timestamp order
+	Fragmented    int        // packets captured as IPv4 fragments
 	EqualStamps   int        // pairs of consecutive packets (different conversations) with the same timestamp
 }
 
@@ -402,7 +408,7 @@ func dirName(d int) string {
 func (p *Packet) String() string {
 	switch p.Kind {
 	case "udp":
-		return fmt.Sprintf("t=%d #%d %s udp off=%d len=%d", p.TimeUS, p.Conv, dirName(p.Dir), p.Off, len(p.Payload))
+		return fmt.Sprintf("t=%d #%d %s udp off=%d len=%d%s", p.TimeUS, p.Conv, dirName(p.Dir), p.Off, len(p.Payload), p.fragNote())
 	default:
 		fl := ""
 		for _, f := range []struct {
@@ -413,8 +419,19 @@ func (p *Packet) String() string {
 				fl += f.s
 			}
 		}
-		return fmt.Sprintf("t=%d #%d %s %s[%s] seq=%d ack=%d off=%d len=%d", p.TimeUS, p.Conv, dirName(p.Dir), p.Kind, fl, p.Seq, p.Ack, p.Off, len(p.Payload))
+		return fmt.Sprintf("t=%d #%d %s %s[%s] seq=%d ack=%d off=%d len=%d%s", p.TimeUS, p.Conv, dirName(p.Dir), p.Kind, fl, p.Seq, p.Ack, p.Off, len(p.Payload), p.fragNote())
 	}
+}
+
+func (p *Packet) fragNote() string {
+	if len(p.FragCuts) == 0 {
+		return ""
+	}
+	r := ""
+	if p.FragReverse {
+		r = " reversed"
+	}
+	return fmt.Sprintf(" ip-fragments cut at %v%s", p.FragCuts, r)
 }
 
 // Fingerprint is a cheap canonical digest of the scenario (conversations,
